@@ -1040,6 +1040,29 @@ def p_logical(I, n, pos, kw):
     return arrays.binop(lambda a, b: f(a, b), pos[0], pos[1])
 
 
+@prim("numpy.copyto")
+def p_copyto(I, n, pos, kw):
+    """np.copyto(dst, src[, where=mask]): dst changes in place — every name bound to that array sees it"""
+    if len(pos) < 2 or not isinstance(pos[0], Arr):
+        I.lose("np.copyto into something that is not a followed array", n)
+        return NoneV()
+    dst, src = pos[0], pos[1]
+    w = kw.get("where")
+    if getattr(dst, "view_of", None) is not None:
+        I.lose("np.copyto into a view of another array", n)
+    try:
+        new = TABLE["numpy.where"](I, n, [w, src, dst], {}) if w is not None and not (isinstance(w, Sc) and w.e == sym.TRUE) \
+            else arrays.binop(lambda a, b: a, src, dst)
+    except Exception:
+        new = None
+    if isinstance(new, Arr) and new.ndim == dst.ndim and all(x[0].same_size(y[0]) for x, y in zip(new.axes, dst.axes)):
+        dst.axes, dst.elem = new.axes, new.elem
+        return NoneV()
+    I.lose("np.copyto whose result could not be written back", n)
+    dst.elem = I.unknown("copyto", n).e
+    return NoneV()
+
+
 @prim("numpy.where")
 def p_where(I, n, pos, kw):
     if len(pos) != 3:
